@@ -81,6 +81,28 @@ PROPS = {
             "uTP has no half-close: each side closes only after it has read everything it expects",
         ],
     ),
+    "C03": dict(
+        level="fault_enumeration",
+        level_text="Fault injection at generated points of generated executions, with runtime oracles: the network is cut at the "
+                   "very instant a flush/shutdown returns Ok, the peer vanishes at a generated datagram index, a spoofed RESET or a "
+                   "token cancellation hits at a generated time, plus the general duplex family with all loss patterns and call "
+                   "orders. Oracles: Ok implies all covered bytes were acknowledged and still reach a reading peer; EOF only after "
+                   "every byte below the FIN and never short of a successful shutdown; after a connection ends every pending / later "
+                   "call returns at once and honestly; a vanished peer ends the connection within the inactivity limit.",
+        level_note=SIM_NOTE,
+        technique="runtime monitoring with fault injection: cut-at-Ok, vanish, RESET, cancel; history oracles at the API boundary",
+        budget=dict(quick=200, thorough=2400),
+        require=["c03_ok_returns_checked", "c03_cut_cases_checked", "c03_eofs_checked", "c03_eof_vs_shutdown_ok_checked",
+                 "c03_deaths_checked", "c03_returns_after_death_checked", "c03_vanish_cases_checked", "c03_resets_on_live_connection"],
+        rule="cases = generated duplex executions with one injected fault (kind, side, point) each; non-trivial = at least one of "
+             "the oracles' triggers occurred (an Ok return, an EOF, a connection end, a cut, a vanish with data outstanding); "
+             "distinct = distinct normalised wire trace hash",
+        assumptions=[
+            "fault points are sampled (log-uniform over datagram indices / times), not enumerated exhaustively",
+            "a cut drops everything sent at or after the instant of the Ok return; datagrams already in flight still arrive",
+            "send back-pressure is switched off where 'at once' is judged (a connection task does nothing while the transport refuses to send)",
+        ],
+    ),
 }
 
 
